@@ -79,6 +79,10 @@ type Op struct {
 	V int    `json:"v,omitempty"`
 }
 
+// isQuery: calls that are queries by contract; they stay in place when the reverted segments
+// are deleted.  (SubFT/AddFT with amount 0 are not: they create the account object.)
+func (o Op) isQuery() bool { return o.K == kReadAll || o.K == kReadCommitted }
+
 func (o Op) usesAddr() bool {
 	switch o.K {
 	case kAddLog, kAddRefund, kSubRefund, kReadAll, kSnapshot, kRevert:
